@@ -1,5 +1,5 @@
 """C11 - IBM 3624 PIN and offset are standard and mutually inverse."""
-from harness import core, oracles as o, framework as fw
+from harness import core, gens, oracles as o, framework as fw
 
 
 def dec(t):
@@ -45,7 +45,7 @@ def run(ctx):
                 pl = rng.randrange(0, 20)
                 off = rng.randrange(0, pl + 1)
                 ln = rng.randrange(0, pl - off + 1)
-                cases.append((fn, (rng.randbytes(rng.choice((8, 16, 24))), rnd(16), rnd(rng.randrange(4, 17)), rnd(pl), off, ln, pad)))
+                cases.append((fn, (gens.key(rng, rng.choice((8, 16, 24))), rnd(16), rnd(rng.randrange(4, 17)), rnd(pl), off, ln, pad)))
         # structured decimalisation tables: the default, the identity prefix with other tails, constant, reversed, one
         # entry changed - a table is data, every entry of it must be honoured for every hex digit
         for table in ("0123456789012345", "0123456789543210", "0123456789999999", "0123456789000000", "0123456789123456",
@@ -109,7 +109,6 @@ def run(ctx):
             span, k2 = rnd(pl), rng.randbytes(16)
             for pad in "F0f9Aa5E":
                 cases.append((fn, (k2, table, "4321", span, off, ln, pad)))
-    from harness import gens
     cases = fw.with_history(rng, cases, gens.variants_generic(rng), fraction=0.08, limit=40)
     _res = fw.call_result(
         cases, check_impl=check_impl, nontrivial=lambda fn, a, o_: o_[0] == "OK",
